@@ -239,6 +239,10 @@ class DictReader:
                     value = None
                     break
                 _tried.add(str(value))
+                if not re.fullmatch(r"\$\w[\w\[\]]*", str(value)):
+                    # an expression, not a plain reference (e.g. "$c[0] + 1"): it has no value before it is evaluated
+                    value = None
+                    break
                 reference = str(value)
                 ref_changed_through_recursion = True
                 value = DictReader._resolve_reference(
